@@ -49,12 +49,20 @@ Theorem C06_roundtrip_face : forall (f : face) (chunks : list (list N)),
              /\ forall g, face_ok g -> abs_face (fm_apply m' g) = expressible (abs_face f).
 Proof. exact roundtrip_face. Qed.
 
-(* 3. text: every Unicode scalar value except ESC *)
+(* 3. text: every Unicode scalar value. ESC and the C1 introducers (DCS SOS CSI OSC PM APC) are
+   written as U+FFFD by the encoder on purpose (crate commit 73d8d1c), so they read back as U+FFFD;
+   every other character reads back as itself *)
 Theorem C06_text : forall (c : N) (chunks : list (list N)),
-  scalar_ok c = true -> c <> 27 ->
+  scalar_ok c = true ->
+  concat chunks = encode (CmdChar c) ->
+  decode_chunks st_init chunks = Some ([CmdChar (char_out c)], st_init).
+Proof. exact roundtrip_text. Qed.
+
+Lemma C06_text_same : forall (c : N) (chunks : list (list N)),
+  scalar_ok c = true -> char_unsafe c = false ->
   concat chunks = encode (CmdChar c) ->
   decode_chunks st_init chunks = Some ([CmdChar c], st_init).
-Proof. exact roundtrip_text. Qed.
+Proof. exact roundtrip_text_same. Qed.
 
 (* 4. any stream of such commands, any chunking: the decoder returns to its initial state after
    every command, so sequences are never merged with or corrupted by their neighbours *)
@@ -120,8 +128,10 @@ Check C06_roundtrip_face : forall (f : face) (chunks : list (list N)),
   exists m', decode_chunks st_init chunks = Some ([CmdFaceModify m'], st_init)
              /\ forall g, face_ok g -> abs_face (fm_apply m' g) = expressible (abs_face f).
 Check C06_text : forall (c : N) (chunks : list (list N)),
-  scalar_ok c = true -> c <> 27 -> concat chunks = encode (CmdChar c) ->
-  decode_chunks st_init chunks = Some ([CmdChar c], st_init).
+  scalar_ok c = true -> concat chunks = encode (CmdChar c) ->
+  decode_chunks st_init chunks = Some ([CmdChar (char_out c)], st_init).
+Check (eq_refl : map char_out [26; 27; 28; 143; 144; 152; 155; 156; 157; 158; 159; 160]
+                 = [26; 65533; 28; 143; 65533; 65533; 65533; 156; 65533; 65533; 65533; 160]).
 Check C06_semantics_wf : forall (f0 : face) (hist : list hitem) (chunks : list (list N)),
   face_ok f0 -> Forall item_ok hist -> concat chunks = render hist ->
   exists cells, tty_write_chunks f0 chunks = Some cells
